@@ -13,8 +13,12 @@ Deductive part:
   eig.backtransform  lemma in the free algebra: B = P A P^H, P unitary, B V = V L  =>  A (P^H V) = (P^H V) L and
                      (P^H V)^H (P^H V) = V^H V, so V unitary needs an orthonormal V_B: the eigen-solver's contract
                      must be eigh's (checked: the solver called is np.linalg.eigh).
-The recursive two-sided reduction internal_tridiagonalizer (block structure of the recursion) and everything
-about rounding are decided by the bounded stand-in on Hermitian classes n <= 6 incl. repeated / zero spectra."""
+  recursion          internal_tridiagonalizer for every r >= 2, modularly (the recursive call by its own contract C(r-1)), in
+                     1 + (r-1) block form over the free *-algebra: P is unitary and of the form diag(1, P'), B = P A P^H,
+                     column 0 of B has nothing below the sub-diagonal (H x = nu e1 from the Householder contract), the corner
+                     is untouched, the recursive call receives H A22 H^H and its result becomes the trailing block.
+Everything about rounding, and the eigen-solver's numerics, are decided by the bounded stand-in on Hermitian classes
+n <= 6 incl. repeated / zero spectra, block-diagonal and zero-pivot patterns."""
 from __future__ import annotations
 
 import itertools
@@ -281,6 +285,180 @@ def deductive(rep: Report, tier):
 
 
 # ---------------------------------------------------------------------------------------------------
+# internal_tridiagonalizer: modular proof of the recursion in 1 + (r-1) block form
+class BMat:
+    """2x2 block matrix over the free *-algebra with block sizes (1, r-1).  Only the block operations the recursion
+    uses are modelled: A[1:, 0], X[1:, 1:] (read / write), copy, quaternion product and conjugate transpose."""
+    qv_value = True
+    ndim = 2
+
+    def __init__(self, blocks, rm1):
+        self.b = [list(r) for r in blocks]
+        self.rm1 = rm1
+
+    @property
+    def shape(self):
+        return (self.rm1 + 1, self.rm1 + 1)
+
+    @property
+    def dtype(self):
+        from ..values import QUAT
+        return QUAT
+
+    def copy(self):
+        return BMat(self.b, self.rm1)
+
+    def has_attr(self, name):
+        return name in ("shape", "ndim", "dtype", "copy")
+
+    @staticmethod
+    def _tail(sl):
+        return isinstance(sl, slice) and sl.start == 1 and sl.stop is None and sl.step is None
+
+    def getitem(self, idx):
+        from ..values import HMat
+        if isinstance(idx, tuple) and len(idx) == 2:
+            if self._tail(idx[0]) and idx[1] == 0:
+                out = HMat(self.b[1][0])
+                out.one_dim = True
+                return out
+            if self._tail(idx[0]) and self._tail(idx[1]):
+                return HMat(self.b[1][1])
+        raise ix.OutOfReach("block access outside the recursion's pattern")
+
+    def setitem(self, idx, val):
+        from ..values import HMat
+        if isinstance(idx, tuple) and len(idx) == 2 and self._tail(idx[0]) and self._tail(idx[1]) and isinstance(val, HMat):
+            ncm.dims_equal(val.shape[0], self.rm1, "block.rows")
+            ncm.dims_equal(val.shape[1], self.rm1, "block.cols")
+            self.b[1][1] = val.p
+            return
+        raise ix.OutOfReach("block write outside the recursion's pattern")
+
+    @staticmethod
+    def eye(rm1):
+        return BMat([[NC.eye(1), NC.zero(1, rm1)], [NC.zero(rm1, 1), NC.eye(rm1)]], rm1)
+
+    def mul(self, o):
+        return BMat([[self.b[i][0] @ o.b[0][j] + self.b[i][1] @ o.b[1][j] for j in range(2)] for i in range(2)], self.rm1)
+
+    def herm(self):
+        return BMat([[self.b[0][0].star, self.b[1][0].star], [self.b[0][1].star, self.b[1][1].star]], self.rm1)
+
+
+def recursion_obligations(rep: Report):
+    """Contract C(r) of internal_tridiagonalizer for an r x r input (r >= 2), proved from C(r-1) for the recursive call and
+    the Householder contract (H unitary, H x = nu e1 - C09's obligations):
+        P is unitary and P = diag(1, P'),  B = P A P^H,  B[1:, 0] = nu e1 (nothing below the sub-diagonal in column 0),
+        B[0, 0] = A[0, 0],  B[1:, 1:] is the result of the recursive call on (H A22 H^H) (tridiagonal by C(r-1))."""
+    from ..values import HMat, fresh_hmat
+    from ..kernels import ALGEBRA
+    lib = Library("nc")
+    lib.qmode = "H"
+
+    class E1:
+        qv_value = True
+
+        def __init__(self, n):
+            self.n, self.set0 = n, False
+            self.shape = (n,)
+
+        def setitem(self, idx, val):
+            if idx == 0 and val == 1:
+                self.set0 = True
+            else:
+                raise ix.OutOfReach("unit vector written at another position")
+    lib.np.table["zeros"] = lambda shape, dtype=None: E1(shape) if not isinstance(shape, tuple) else ix._raise("zeros form") if False else E1(shape[0])
+    lib.np.table["eye"] = lambda n, dtype=None: BMat.eye(cur().ghost["rm1"])
+
+    def k_house(I, args, kwargs):
+        a, v = args
+        g = cur().ghost
+        ok = isinstance(a, HMat) and ncm.nc_syntactically_equal(a.p, g["x"]) and isinstance(v, E1) and v.set0
+        if not ok:
+            raise ix.OutOfReach("householder_matrix called on something else than (first sub-column, e1)")
+        g["house_called"] = True
+        return HMat(NC.atom(g["Hs"]))
+
+    def k_rec(I, args, kwargs):
+        (M,) = args
+        g = cur().ghost
+        rm1 = g["rm1"]
+        Qs = Atom("Qs", rm1, rm1, "orth", alg="H")
+        # C(r-1): Q_sub = diag(1, Q'), i.e. Q_sub e1 = e1 and e1^H Q_sub = e1^H
+        ncm.add_rewrite((("Qs", False), ("e1", False)), (("e1", False),))
+        ncm.add_rewrite((("Qs", True), ("e1", False)), (("e1", False),))
+        g["rec"] = (M, Qs)
+        q = NC.atom(Qs)
+        return HMat(q), HMat(q @ M.p @ q.star)
+
+    def k_mm(I, args, kwargs):
+        A, B = args
+        if isinstance(A, BMat) and isinstance(B, BMat):
+            return A.mul(B)
+        return ALGEBRA[U + "quat_matmat"](I, args, kwargs)
+
+    def k_h(I, args, kwargs):
+        (A,) = args
+        if isinstance(A, BMat):
+            return A.herm()
+        return ALGEBRA[U + "quat_hermitian"](I, args, kwargs)
+    contracts = {U + "quat_matmat": k_mm, U + "quat_hermitian": k_h, TD + "householder_matrix": k_house, TD + "internal_tridiagonalizer": k_rec}
+
+    for case in ("r_eq_2", "r_gt_2"):
+        def setup(I, ctx, case=case):
+            rm1 = SInt.var("rm1")
+            ctx.assume(rm1 >= 1, base=True)
+            ctx.assume((rm1 == 1) if case == "r_eq_2" else (rm1 > 1), base=True)
+            nu = SReal.var("nu")
+            Hs = Atom("Hs", rm1, rm1, "orth", alg="H")
+            e1 = Atom("e1", rm1, 1, "gen", alg="H")
+            a = Atom("a00", 1, 1, "sym", alg="H")
+            A22 = Atom("A22", rm1, rm1, "sym", alg="H")
+            # the sub-column x, written through the reflector that maps it to nu e1:  x = nu H^H e1   (H x = nu e1)
+            x = (NC.atom(Hs).star @ NC.atom(e1)).scale(nu)
+            A = BMat([[NC.atom(a), x.star], [x, NC.atom(A22)]], rm1)
+            ctx.ghost.update({"rm1": rm1, "Hs": Hs, "x": x, "nu": nu})
+            return [A], {}, dict(A=A, rm1=rm1, nu=nu, x=x)
+
+        def post(I, ctx, outcome, val, aux, case=case):
+            if outcome != "return" or not (isinstance(val, tuple) and len(val) == 2 and all(isinstance(v, BMat) for v in val)):
+                return [("returns_block_pair", False)]
+            Pm, Bm = val
+            A, rm1, nu = aux["A"], aux["rm1"], aux["nu"]
+            out = [("returns_block_pair", True), ("householder_on_first_subcolumn", bool(ctx.ghost.get("house_called")))]
+            I2 = BMat.eye(rm1)
+            PPh, PhP = Pm.mul(Pm.herm()), Pm.herm().mul(Pm)
+            PAP = Pm.mul(A).mul(Pm.herm())
+            for i in range(2):
+                for j in range(2):
+                    out.append((f"P_unitary.PPh[{i}{j}]", PPh.b[i][j], I2.b[i][j]))
+                    out.append((f"P_unitary.PhP[{i}{j}]", PhP.b[i][j], I2.b[i][j]))
+                    out.append((f"B_is_P_A_Ph[{i}{j}]", Bm.b[i][j], PAP.b[i][j]))
+            out.append(("P_is_diag_1_Pprime", not ncm.nc_diff_words(Pm.b[0][0], NC.eye(1)) and not Pm.b[0][1].t and not Pm.b[1][0].t))
+            e1 = NC.atom(ncm.ATOMS["e1"])
+            out.append(("first_column_reduced", Bm.b[1][0], e1.scale(nu)))
+            out.append(("corner_unchanged", Bm.b[0][0], A.b[0][0]))
+            if case == "r_gt_2":
+                rec = ctx.ghost.get("rec")
+                ok = rec is not None
+                out.append(("recursion_on_trailing_block", ok))
+                if ok:
+                    M, Qs = rec
+                    Hn = NC.atom(ctx.ghost["Hs"])
+                    out.append(("recursive_argument_is_H_A22_Hh", M.p, Hn @ A.b[1][1] @ Hn.star))
+                    q = NC.atom(Qs)
+                    out.append(("trailing_block_is_recursive_result", Bm.b[1][1], q @ M.p @ q.star))
+            else:
+                out.append(("no_recursion_for_2x2", ctx.ghost.get("rec") is None))
+            return out
+        cl = ["returns_block_pair", "householder_on_first_subcolumn", "P_is_diag_1_Pprime", "first_column_reduced", "corner_unchanged"] + \
+             [f"{nm}[{i}{j}]" for nm in ("P_unitary.PPh", "P_unitary.PhP", "B_is_P_A_Ph") for i in range(2) for j in range(2)] + \
+             (["recursion_on_trailing_block", "recursive_argument_is_H_A22_Hh", "trailing_block_is_recursive_result"] if case == "r_gt_2" else ["no_recursion_for_2x2"])
+        run_case(rep, P, TD + "internal_tridiagonalizer", f"recursion.{case}", setup, post, lib=lib, contracts=contracts, clauses=cl, replay=replay_tridiag, timeout_s=30)
+
+
+# ---------------------------------------------------------------------------------------------------
 def hermitian_from_spectrum(rng, lam):
     from .. import runtime as rt
     n = len(lam)
@@ -464,6 +642,7 @@ def run(tier, seed):
     import os
     if os.environ.get("QV_DEV_SKIP_DEDUCTIVE") != "1":     # development switch only: never set by a registered command
         deductive(rep, tier)
+    recursion_obligations(rep)
     bounded(rep, tier, seed)
     return rep
 
